@@ -38,8 +38,8 @@ MUTANTS = [
     ("exclusive-prefix-ok", T, "            and len(common_prefix) != len(other.path)\n", "\n"),
     ("call-paths-wrong-index", M, "return path1[common_prefix_len].exclusive_with(path2[common_prefix_len])", "return path1[common_prefix_len].exclusive_with(path2[-1])"),
     ("call-paths-prefix-dropped", M, "if common_prefix_len == len(path1) or common_prefix_len == len(path2):", "if common_prefix_len == len(path1) and common_prefix_len == len(path2):"),
-    ("exempt-any", M, "            return all(\n                common_ancestors[-1].nonexclusive", "            return any(\n                common_ancestors[-1].nonexclusive"),
-    ("exempt-innermost-ancestor", M, "common_ancestors[-1].nonexclusive or call_paths_exclusive", "common_ancestors[0].nonexclusive or call_paths_exclusive"),
+    ("exempt-any", M, "            return all(\n                any(ancestor.nonexclusive", "            return any(\n                any(ancestor.nonexclusive"),
+    ("exempt-ancestor-of-one-chain", M, "any(ancestor.nonexclusive for ancestor in call1.ancestors if ancestor in call2.ancestors)", "any(ancestor.nonexclusive for ancestor in call1.ancestors)"),
     ("exempt-wrong-paths", M, "call_paths_exclusive(call1.call_path, call2.call_path)", "call_paths_exclusive(call1.call_path, call1.call_path)"),
     ("asymmetric-edge", M, "                cgr[begin].add(end)\n                cgr[end].add(begin)", "                cgr[begin].add(end)"),
     ("implicit-loop-one-sided", M, "                for transaction2 in method_map.transactions_for(method):\n                    if transaction1", "                for transaction2 in method_map.transactions:\n                    if transaction1"),
